@@ -52,6 +52,14 @@ class Runner:
                 assumptions = ck.parse_assumptions(out, cfg["prop_file"])
             else:
                 self.broken.append(("proof", self.describe_coq_failure(out)))
+            self.coqchk = None
+            if ok and self.tier == "thorough":
+                mod = "LNC." + cfg["prop_file"][:-2].replace("/", ".")
+                rc3, out3 = ck.sh(["timeout", "2400", "coqchk", "-silent", "-o", "-Q", ".", "LNC", mod], cwd=ck.COQ, timeout=2500)
+                self.log.append(("coqchk " + mod, rc3, out3[-3000:]))
+                self.coqchk = {"rc": rc3, "output_tail": out3.strip()[-1500:]}
+                if rc3 != 0:
+                    self.broken.append(("coqchk", "coqchk rejects %s: %s" % (mod, out3.strip()[-500:])))
             mok, mout = ck.extract_and_build_model(self.log)
             if not mok:
                 self.broken.append(("model-extraction", mout.strip()[-600:]))
@@ -226,6 +234,7 @@ class Runner:
                 "model_impl_mismatches": len(self.mismatches),
                 "distribution": {k: v for k, v in self.stats.items()},
                 "go2coq": self.go2coq_report if cfg.get("translated") else None,
+                "coqchk": getattr(self, "coqchk", None),
                 "explanation": cfg.get("explanation", ""),
             },
             "assumptions": cfg.get("assumptions", []),
